@@ -113,3 +113,5 @@ def run(ctx):
                  'a dropped result turns a backend failure into success')
     chains.propagation_rule(P, r, ['encode', 'decode', 'reconstruct', 'fragments_needed'], shared.IN_SCOPE_BACKENDS, 'chain')
     r.require_min(10)
+    ctx.borrow('c14', ['R14f'], 'a failed create must not change the reference count of the shared GF tables')
+    ctx.borrow('c18', ['R18d'], 'a failed call must not leave the registry lock held')
